@@ -287,11 +287,9 @@ class RelativeFilterQuery(FilterQuery):
 
     def evaluate(self, context: FilterContext) -> object:
         """Evaluate the filter expression in the given _context_."""
-        if not isinstance(context.current, (list, dict)):
-            if self.query.empty():
-                return context.current
-            return JSONPathNodeList()
-
+        # A query applied to a primitive value selects the value itself if the
+        # query is just `@`, or nothing at all. Either way the result is a node
+        # list, so existence tests and function arguments see a node, not a value.
         return JSONPathNodeList(self.query.find(context.current))
 
 
